@@ -160,7 +160,7 @@ SIM = {
     },
     "C07": {
         "props": ["C07"],
-        "extra": ["inflight_fill", "cross_market"],
+        "extra": ["inflight_fill", "cross_market", "repeated_cancel"],
         "designs": simcore_designs(["Inv_C07_NoDueLeft"]) + simrun_designs(["Inv_C07_NoDueLeft"]) + [
             # the latency machinery over a file carrying several markets (clock stepping back on re-delivered books,
             # requests for another market): 1.08 M states
